@@ -142,24 +142,6 @@ Qed.
 Lemma tc_mono (R S : rel) x y : (forall a b, R a b -> S a b) -> tc R x y -> tc S x y.
 Proof. intros H; induction 1; [constructor; auto|eapply tc_step; eauto]. Qed.
 
-(* ---------------------------------------------------------------- zero-length matches off the graph *)
-Lemma refl_nullable g p b : ~ In b (nodes g) -> path_rel g p b b -> nullable p = true.
-Proof.
-  intros Hb. induction p as [q|a IH|l IH|l IH|a m IH|l] using path_ind2; simpl.
-  - intros H. apply in_graph_nodes in H. tauto.
-  - auto.
-  - induction IH as [|a l Ha _ IHl]; simpl; [auto|].
-    intros (z & H1 & H2).
-    destruct (path_rel_RN _ _ _ _ H1) as [<-|[Hx _]]; [|tauto].
-    rewrite Ha, IHl; auto.
-  - intros (R & HR & H). rewrite in_map_iff in HR. destruct HR as (a & <- & Ha).
-    rewrite Forall_forall in IH. apply existsb_exists. exists a. split; auto.
-  - destruct m; simpl; auto.
-    intros H. apply IH. inversion H as [? ? H1|? z ? H1 H2]; subst; [auto|].
-    destruct (path_rel_RN _ _ _ _ H1) as [<-|[Hx _]]; [auto|tauto].
-  - intros [[_ (p & H & _)]|[_ (p & H & _)]]; apply in_graph_nodes in H; tauto.
-Qed.
-
 (* ---------------------------------------------------------------- list-set shorthands *)
 Lemma membN_In x l : memb N.eqb x l = true <-> In x l.
 Proof. apply memb_In, N.eqb_spec. Qed.
